@@ -88,3 +88,58 @@ func (p *minimalPeer) closeAll() {
 		c.Close()
 	}
 }
+
+// recordingPeer is a minimalPeer that also counts the data frames it receives.
+type recordingPeer struct {
+	minimalPeer
+	fmu    sync.Mutex
+	frames [][]byte
+}
+
+func (p *recordingPeer) dial(ctx context.Context, network, addr string) (net.Conn, error) {
+	a, b := net.Pipe()
+	go p.serveRec(b)
+	return a, nil
+}
+
+func (p *recordingPeer) serveRec(c net.Conn) {
+	defer c.Close()
+	hdr := make([]byte, 14)
+	for {
+		if _, err := io.ReadFull(c, hdr); err != nil {
+			return
+		}
+		l := binary.BigEndian.Uint32(hdr[:4])
+		if l < 10 || l > 1<<24 {
+			return
+		}
+		body := make([]byte, l-10)
+		if _, err := io.ReadFull(c, body); err != nil {
+			return
+		}
+		stype := hdr[4+5]
+		if stype == 0 {
+			p.fmu.Lock()
+			p.frames = append(p.frames, append(append([]byte(nil), hdr...), body...))
+			p.fmu.Unlock()
+			continue
+		}
+		if stype == 1 || stype == 3 || stype == 5 {
+			rsp := append([]byte{0, 0, 0, 10}, hdr[4:]...)
+			rsp[4+5] = stype + 1
+			rsp[4+2], rsp[4+3] = 0, 0
+			if _, err := c.Write(rsp); err != nil {
+				return
+			}
+		}
+		if stype == 9 {
+			return
+		}
+	}
+}
+
+func (p *recordingPeer) dataFrames() int {
+	p.fmu.Lock()
+	defer p.fmu.Unlock()
+	return len(p.frames)
+}
